@@ -18,13 +18,15 @@ NULLREF = 'def __getattr__(name):\n    def f(*a, **k):\n        return None\n   
 MACROS_ONE_AT_A_TIME = [
     'CYTHON_USE_PYLONG_INTERNALS=0', 'CYTHON_USE_UNICODE_INTERNALS=0', 'CYTHON_VECTORCALL=0', 'CYTHON_USE_PYLIST_INTERNALS=0',
     'CYTHON_AVOID_BORROWED_REFS=1', 'CYTHON_ASSUME_SAFE_MACROS=0', 'CYTHON_ASSUME_SAFE_SIZE=0', 'CYTHON_USE_TYPE_SLOTS=0',
-    'CYTHON_USE_TYPE_SPECS=1', 'CYTHON_USE_DICT_VERSIONS=0', 'CYTHON_FAST_THREAD_STATE=0', 'CYTHON_USE_EXC_INFO_STACK=0',
+    'CYTHON_USE_TYPE_SPECS=1', 'CYTHON_USE_DICT_VERSIONS=0', 'CYTHON_FAST_THREAD_STATE=0',
     'CYTHON_UNPACK_METHODS=0', 'CYTHON_USE_FREELISTS=0', 'CYTHON_USE_UNICODE_WRITER=0', 'CYTHON_FAST_PYCALL=0',
     'CYTHON_USE_PYTYPE_LOOKUP=0', 'CYTHON_USE_ASYNC_SLOTS=0', 'CYTHON_METH_FASTCALL=0', 'CYTHON_FAST_GIL=0']
 ALL_OFF = ['CYTHON_USE_PYLONG_INTERNALS=0', 'CYTHON_USE_UNICODE_INTERNALS=0', 'CYTHON_USE_PYLIST_INTERNALS=0',
            'CYTHON_AVOID_BORROWED_REFS=1', 'CYTHON_ASSUME_SAFE_MACROS=0', 'CYTHON_ASSUME_SAFE_SIZE=0', 'CYTHON_USE_TYPE_SLOTS=0',
-           'CYTHON_USE_DICT_VERSIONS=0', 'CYTHON_FAST_THREAD_STATE=0', 'CYTHON_USE_EXC_INFO_STACK=0', 'CYTHON_UNPACK_METHODS=0',
+           'CYTHON_USE_DICT_VERSIONS=0', 'CYTHON_FAST_THREAD_STATE=0', 'CYTHON_UNPACK_METHODS=0',
            'CYTHON_USE_FREELISTS=0', 'CYTHON_FAST_PYCALL=0', 'CYTHON_USE_PYTYPE_LOOKUP=0']
+# CYTHON_USE_EXC_INFO_STACK=0 is not a configuration of CPython >= 3.7 (tstate->exc_type no longer exists: it does not
+# compile alone and crashes when forced together with CYTHON_FAST_THREAD_STATE=0); it is not a cell.
 DIRECTIVES = [('binding', False), ('optimize.use_switch', False), ('optimize.unpack_method_calls', False),
               ('optimize.inline_defnode_calls', False), ('always_allow_keywords', False), ('auto_pickle', False)]
 
